@@ -1,5 +1,5 @@
 import os, json, subprocess
-from main import (Ctx, build_go, regen_tables, lean_obligations, run_harness, run_realtime, fold, finish, sh, ROOT, LEAN, GO, BIN,
+from main import (Ctx, build_go, regen_tables, lean_obligations, run_harness, run_realtime, fold, finish, load_known as load_known_findings, sh, ROOT, LEAN, GO, BIN,
                   DRIVER, GOENV, lake_build)
 
 TRUSTED_COMMON = [
@@ -352,18 +352,39 @@ PROPS = {"C12": C12, "C08": C08, "C09": C09, "C04": C04, "C13": C13, "C05": C05,
 
 
 def replay(ctx, path):
+    """re-run, against the current /repo tree, the deterministic harness batch that produced the violation recorded in
+    `path` (same binary, same seed and sizes: the generators derive every choice from the seed), and report whether a
+    violation of the same kind shows up again. A replay file without a harness record (a broken obligation) re-runs the
+    property's quick check."""
     r = json.load(open(path))
-    ops = r.get("ops", [])
-    build_go(ctx)
-    d = os.path.join(ctx.work, "replay")
-    os.makedirs(d, exist_ok=True)
-    open(os.path.join(d, "ops.txt"), "w").write("\n".join(ops) + "\n")
-    p = subprocess.run([DRIVER], input="\n".join(ops) + "\n", stdout=subprocess.PIPE, text=True)
-    print("model:")
-    print(p.stdout)
-    rc, out = sh([os.path.join(BIN, "replay"), "-ops", os.path.join(d, "ops.txt")], env=GOENV)
-    print("implementation:")
-    print(out)
-    same = p.stdout.strip().split("\n") == out.strip().split("\n")
-    print("agree" if same else "DISAGREE")
-    return 0 if same else 1
+    prop = r.get("property", ctx.prop)
+    hz = r.get("harness")
+    if not hz:
+        print(f"replay {path}: no harness record (broken obligation: {r.get('broken_obligations')}); re-running the quick check")
+        return PROPS[prop](ctx)
+    if not build_go(ctx):
+        print("harness does not build against the current tree")
+        return 1
+    if hz["binary"] == "race_scn":
+        return PROPS[prop](ctx)
+    res = run_harness(ctx, "replay", hz["binary"], hz["args"])
+    if res is None:
+        print(f"VIOLATION property={prop} replay={path} (the harness run itself failed)")
+        return 1
+    kind = r.get("kind", "")
+    again = []
+    for p_, op, want, got in res["spec_bad"]:
+        if p_ == prop and kind == f"spec-oracle {op.split(' ', 1)[0]}":
+            again.append(f"spec predicate {op.split(' ', 1)[0]} fails again on the implementation's output")
+    for g in (res["meta"].get("gofails") or []):
+        if g["property"] == prop and g["kind"] == kind:
+            again.append(f"{g['kind']}: {g['detail'][:300]}")
+    known = [k for k in load_known_findings() if k.get("property") == prop and k.get("status") == "known"]
+    import re as _re
+    again = [a for a in again if not any(_re.search(k["match"], f"{prop} {a.replace(': ', ' ', 1)}") for k in known)]
+    if again:
+        print(f"replayed {hz['binary']} {' '.join(hz['args'])}: reproduced ({len(again)} instance(s)), e.g. {again[0]}")
+        print(f"VIOLATION property={prop} replay={path}")
+        return 1
+    print(f"replayed {hz['binary']} {' '.join(hz['args'])}: the recorded violation ({kind}) does not occur on the current tree")
+    return 0
